@@ -34,6 +34,30 @@ structure St where
   reg : Reg := {}
   prefixes : List (List Char) := []
 
+/-- Canonical text, same as `J.render`, but emitted into an accumulator (linear in the size of the value even
+for documents thousands of levels deep). -/
+partial def renderAcc : J → List Char → List Char
+  | .null, acc => 'n' :: 'u' :: 'l' :: 'l' :: acc
+  | .bool true, acc => 't' :: 'r' :: 'u' :: 'e' :: acc
+  | .bool false, acc => 'f' :: 'a' :: 'l' :: 's' :: 'e' :: acc
+  | .num s, acc => s.toList ++ acc
+  | .str s, acc => showStr s ++ acc
+  | .arr xs, acc =>
+    let rec elems : List J → List Char → List Char
+      | [], acc => acc
+      | [x], acc => renderAcc x acc
+      | x :: r, acc => renderAcc x (',' :: elems r acc)
+    '[' :: elems xs (']' :: acc)
+  | .obj kvs, acc =>
+    let sorted := (kvs.toArray.qsort fun a b => keyLt a.1 b.1).toList
+    let rec members : List (Key × J) → List Char → List Char
+      | [], acc => acc
+      | [(k, v)], acc => showStr k ++ ':' :: renderAcc v acc
+      | (k, v) :: r, acc => showStr k ++ ':' :: renderAcc v (',' :: members r acc)
+    '{' :: members sorted ('}' :: acc)
+
+def showJ (v : J) : String := String.ofList (renderAcc v [])
+
 def showCode (e : RErr) : String :=
   match e.code Gen.Registry.registryErrorCode Gen.Registry.errorCodes with
   | some c => toString c
@@ -46,13 +70,13 @@ def isPanicCode (e : RErr) : Bool :=
 
 def showRes (r : Res) : String :=
   match r with
-  | .ok v => "ok " ++ v.show
+  | .ok v => "ok " ++ showJ v
   | .error e => if isPanicCode e then "unspecified" else "err " ++ e.name ++ " " ++ showCode e
 
 /-- one-word form used inside `conc` lines -/
 def resWord (r : Res) : String :=
   match r with
-  | .ok v => "ok:" ++ v.show
+  | .ok v => "ok:" ++ showJ v
   | .error e => if isPanicCode e then "unspecified" else "err:" ++ e.name ++ ":" ++ showCode e
 
 def funcsJ (reg : Reg) : J :=
@@ -64,14 +88,14 @@ def funcsJ (reg : Reg) : J :=
 def logEntryJ (e : Nat × J) : J := .arr [.num (toString e.1), e.2]
 
 def dumpWords (reg : Reg) : String :=
-  reg.root.show ++ " " ++ (funcsJ reg).show ++ " " ++ (J.arr (reg.log.map logEntryJ)).show
+  showJ reg.root ++ " " ++ showJ (funcsJ reg) ++ " " ++ showJ (J.arr (reg.log.map logEntryJ))
 
 def sortedLog (reg : Reg) : String :=
-  let xs := ((reg.log.map fun e => (logEntryJ e).show).toArray.qsort (· < ·)).toList
+  let xs := ((reg.log.map fun e => showJ (logEntryJ e)).toArray.qsort (· < ·)).toList
   "[" ++ ",".intercalate xs ++ "]"
 
 def dumpSorted (reg : Reg) : String :=
-  reg.root.show ++ " " ++ (funcsJ reg).show ++ " " ++ sortedLog reg
+  showJ reg.root ++ " " ++ showJ (funcsJ reg) ++ " " ++ sortedLog reg
 
 def obs (reg : Reg) (r : Res) : String := showRes r ++ " c" ++ toString reg.log.length
 
@@ -350,7 +374,7 @@ def mountObs (st : St) (lookup path : List Char) (fmt : Nat) (body : Bytes) (rec
   | none => (st, "none")
   | some (reg', resp) =>
     let s := match resp.ec, resp.body with
-      | 0, some v => "ok " ++ v.show
+      | 0, some v => "ok " ++ showJ v
       | ec, _ => if 1000001 ≤ ec ∧ ec ≤ 1000003 then "unspecified" else "err " ++ toString ec
     ({ st with reg := reg' }, s ++ " c" ++ toString reg'.log.length)
 
@@ -376,13 +400,13 @@ def step (st : St) (ws : List String) : St × String :=
     | _, _, _, _ => (st, idx ++ " bad-op")
   | ["jp", idx, p] =>
     match parseStrWord p with
-    | some p => (st, idx ++ " " ++ (J.arr ((jpParse p).map J.str)).show)
+    | some p => (st, idx ++ " " ++ showJ (J.arr ((jpParse p).map J.str)))
     | none => (st, idx ++ " bad-op")
   | ["jpe", idx, j, p] =>
     match J.parse j, parseStrWord p with
     | some v, some p =>
       (st, idx ++ " " ++ match jpEval v p with
-        | some r => "some " ++ r.show
+        | some r => "some " ++ showJ r
         | none => "none")
     | _, _ => (st, idx ++ " bad-op")
   | ["enum", idx, dom, len] =>
